@@ -250,8 +250,12 @@ class C22(Prop):
             if acc.expired():
                 acc.cap("wall budget reached in family %s" % fam)
                 break
-            prog = with_all_queries(prog)
-            for pe in (False, True):
+            # two query decorations: every head queried (a sample then determines the choices made)
+            # and the program's own queries (evidence may then touch choices no query touched)
+            variants = [(with_all_queries(prog), pe) for pe in (False, True)]
+            if prog.get("evidence") and prog["queries"] != variants[0][0]["queries"]:
+                variants += [(prog, pe) for pe in (False, True)]
+            for prog, pe in variants:
                 sym, detail, st = check_program(prog, pe)
                 acc.evaluations += st["leaves"]
                 acc.traces += 1
